@@ -444,7 +444,7 @@ func (c *FnCtx) evalBuiltin(st *State, call *ast.CallExpr, name string) []*Val {
 			c.storeStruct(st, ref, typeShortName(nt), "", nt, c.zeroVal(nt))
 		} else {
 			s := c.sortOf(nt)
-			key := "ptr." + sortName(s)
+			key := c.ptrKey(nt)
 			h := c.heapGet(st, key, s)
 			st.heap[key] = tApp("store", h, ref, c.zeroVal(nt).T)
 		}
@@ -666,6 +666,7 @@ func (c *FnCtx) callFunc(st *State, call *ast.CallExpr, fn *types.Func, recv *Va
 	// bind names
 	bind := map[string]*Val{}
 	absPtr := map[string]string{} // parameter name -> reference, for receivers that point to an abstract container
+	absKey := map[string]string{}
 	names := con.Params
 	if len(names) == 0 {
 		if sig.Recv() != nil {
@@ -700,9 +701,10 @@ func (c *FnCtx) callFunc(st *State, call *ast.CallExpr, fn *types.Func, recv *Va
 				if pt, ok := a.Typ.Underlying().(*types.Pointer); ok {
 					if nt, ok := types.Unalias(pt.Elem()).(*types.Named); ok {
 						if as, isAbs := c.V.specs.Abstract[typeShortName(nt)]; isAbs && i == 0 && sig.Recv() != nil && con.Flags["recv-value"] {
-							hk := "ptr." + sortName(as)
+							hk := c.ptrKey(pt.Elem())
 							h := c.heapGet(st, hk, as)
 							absPtr[n] = a.T
+							absKey[n] = hk
 							a = &Val{T: tApp("select", h, a.T), S: as, Typ: pt.Elem()}
 						}
 					}
@@ -781,6 +783,7 @@ func (c *FnCtx) callFunc(st *State, call *ast.CallExpr, fn *types.Func, recv *Va
 			c.frameByEffects(st, ef)
 		}
 	}
+	c.bumpAlloc(st)
 	// abstract values updated in place (receiver of container methods)
 	postBind := map[string]*Val{}
 	recvExpr := c.curRecvExpr
@@ -795,7 +798,7 @@ func (c *FnCtx) callFunc(st *State, call *ast.CallExpr, fn *types.Func, recv *Va
 			// pointer to an abstract value
 			if pt, ok := v.Typ.Underlying().(*types.Pointer); ok {
 				es := c.sortOf(pt.Elem())
-				hk := "ptr." + sortName(es)
+				hk := c.ptrKey(pt.Elem())
 				h := c.heapGet(st, hk, es)
 				nv := c.fresh("mut_"+mn, es)
 				st.heap[hk] = tApp("store", h, v.T, nv)
@@ -805,7 +808,7 @@ func (c *FnCtx) callFunc(st *State, call *ast.CallExpr, fn *types.Func, recv *Va
 		nv := &Val{T: c.fresh("mut_"+mn, v.S), S: v.S, Typ: v.Typ}
 		postBind[mn] = nv
 		if ref, ok := absPtr[mn]; ok {
-			hk := "ptr." + sortName(v.S)
+			hk := absKey[mn]
 			h := c.heapGet(st, hk, v.S)
 			st.heap[hk] = tApp("store", h, ref, nv.T)
 			continue
@@ -954,7 +957,7 @@ func (c *FnCtx) applyModifies(st *State, env *SpecEnv, m Clause) {
 		if p.Typ != nil {
 			if pt, ok := p.Typ.Underlying().(*types.Pointer); ok {
 				if es := c.sortOf(pt.Elem()); es != SNone {
-					k := "ptr." + sortName(es)
+					k := c.ptrKey(pt.Elem())
 					c.heapGet(st, k, es)
 					c.havocHeapAt(st, k, p.T)
 					return
@@ -1021,6 +1024,7 @@ func (c *FnCtx) havocHeapAt(st *State, key, ref string) {
 // callNoContract: extern or repo function without a contract.
 func (c *FnCtx) callNoContract(st *State, call *ast.CallExpr, fn *types.Func, recv *Val, args []*Val, key string) []*Val {
 	sig, _ := fn.Type().(*types.Signature)
+	c.bumpAlloc(st)
 	if c.isRepoFunc(fn) {
 		if ef := c.V.effects[key]; ef != nil && c.V.funcs[key] != nil {
 			return c.callByEffects(st, call, fn, recv, args, key, ef)
@@ -1538,7 +1542,7 @@ func (c *FnCtx) callByEffects(st *State, call *ast.CallExpr, fn *types.Func, rec
 		}
 		// content of abstract containers / maps reached through written pointer fields
 		if strings.HasPrefix(hk, "ptr.") || strings.HasPrefix(hk, "map.") {
-			if len(ef.W) > 0 {
+			if c.contentTouched(ef, hk) {
 				ms.heap[hk] = true
 			}
 		}
@@ -1665,6 +1669,9 @@ func (c *FnCtx) assertGates(st *State, call *ast.CallExpr, fn *types.Func, recv 
 			mk("A1r", "a callee that reads the keyspace runs under a lock", tApp(">=", lock, "1"))
 		}
 	}
+	if c.con.Flags["internal-caller"] {
+		handler = false // background tasks are not client commands: only the lock discipline (A1) applies
+	}
 	if handler && recv != nil {
 		for _, g := range c.con.Gates {
 			if g.Except[fn.Name()] {
@@ -1705,9 +1712,73 @@ func (c *FnCtx) frameByEffects(st *State, ef *Effects) {
 				ms.heap[hk] = true
 			}
 		}
-		if (strings.HasPrefix(hk, "ptr.") || strings.HasPrefix(hk, "map.")) && len(ef.W) > 0 {
+		if (strings.HasPrefix(hk, "ptr.") || strings.HasPrefix(hk, "map.")) && c.contentTouched(ef, hk) {
 			ms.heap[hk] = true
 		}
 	}
 	c.havoc(st, ms, "fx")
+}
+
+// contentTouched: may a callee with these effects change the content heap hk (pointees of abstract containers, maps)?
+// Yes when one of the fields it writes has a type whose pointee / map content lives in hk.
+func (c *FnCtx) contentTouched(ef *Effects, hk string) bool {
+	if len(ef.W) == 0 {
+		return false
+	}
+	if c.V.fieldContent == nil {
+		c.V.fieldContent = map[string]string{}
+		for _, p := range c.V.pkgs {
+			sc := p.Types.Scope()
+			for _, n := range sc.Names() {
+				tn, ok := sc.Lookup(n).(*types.TypeName)
+				if !ok {
+					continue
+				}
+				stt, ok := tn.Type().Underlying().(*types.Struct)
+				if !ok {
+					continue
+				}
+				for i := 0; i < stt.NumFields(); i++ {
+					f := stt.Field(i)
+					key := p.Name + "." + n + "." + f.Name()
+					ft := f.Type()
+					if pt, ok := ft.Underlying().(*types.Pointer); ok {
+						c.V.fieldContent[key] = c.ptrKey(pt.Elem())
+					} else if mt, ok := ft.Underlying().(*types.Map); ok {
+						_, _, mk := c.mapKeys(mt)
+						c.V.fieldContent[key] = mk
+					} else if nt, ok := types.Unalias(ft).(*types.Named); ok {
+						if _, isAbs := c.V.specs.Abstract[typeShortName(nt)]; isAbs {
+							c.V.fieldContent[key] = "" // by-value abstract field: content is in the field heap itself
+						}
+					}
+				}
+			}
+		}
+	}
+	for w := range ef.W {
+		ck, known := c.V.fieldContent[w]
+		if !known {
+			// a field we know nothing about (not a pointer/map): cannot reach a content heap
+			continue
+		}
+		if ck != "" && (hk == ck || strings.HasPrefix(hk, ck+".")) {
+			return true
+		}
+	}
+	return false
+}
+
+// contentKeys: content heaps a callee with these effects may change
+func (c *FnCtx) contentKeys(ef *Effects) []string {
+	c.contentTouched(ef, "") // make sure the table exists
+	seen := map[string]bool{}
+	var out []string
+	for w := range ef.W {
+		if ck := c.V.fieldContent[w]; ck != "" && !seen[ck] {
+			seen[ck] = true
+			out = append(out, ck)
+		}
+	}
+	return out
 }
